@@ -47,6 +47,19 @@ def bases(tier):
                 [1.0, 1.0, 1.0], "ill_conditioned_qp")
     for ctl in ("DistanceRatio", "ResiduumRatio", "Exact"):
         out.append((ill, {"control": ctl}, None))
+    # badly conditioned dense Hessians (cond 1e6 .. 1e8) with the unsymmetric step solvers: with an iterative linear solver some of the
+    # condition estimator's own (transposed) solves fail naturally
+    import numpy as np
+    w = np.array([1.0, -2.0, 0.5, 3.0, -1.0, 2.0]); w = w / np.linalg.norm(w)
+    Qh = np.eye(6) - 2.0 * np.outer(w, w)
+    for cond in (1e6, 1e7, 1e8):
+        ev = np.logspace(-np.log10(cond) / 2, np.log10(cond) / 2, 6)
+        Hh = Qh.dot(np.diag(ev)).dot(Qh.T)
+        Hh = 0.5 * (Hh + Hh.T)
+        illd = G.raw(6, {"H": Hh.tolist(), "g": [1.0, -2.0, 3.0, 0.5, -1.0, 2.0]}, [{"a": [1.0, 1.0, 0.0, 0.0, 1.0, 0.0], "b": 0.0, "lb": -1.0, "ub": 2.0}],
+                     ["-inf", -4.0, "-inf", "-inf", -3.0, "-inf"], ["inf", 5.0, "inf", 6.0, "inf", "inf"], [1.0, 1.0, 1.0, 0.0, -1.0, 0.5], f"ill_dense|{cond:g}")
+        for ss in ("Standard", "Extended", "Asymmetric"):
+            out.append((illd, {"step_solver": ss}, None))
     # entropy-regularised quadratic (defined for x > 0 only), far start, large first steps
     for x0 in ([2.5, 3.0], [4.0, 0.5]):
         ent = G.raw(2, {"H": [[2.0, 1.5], [1.5, 2.0]], "g": [0.0, 0.0], "entropy": True}, [], ["-inf", "-inf"], ["inf", "inf"], x0, f"entropy|{x0}")
